@@ -1,4 +1,5 @@
 pub mod c01;
+pub mod c02;
 
 use crate::gen::Excl;
 use crate::report::{self, RunCtx};
@@ -7,6 +8,7 @@ use serde_json::Value;
 pub fn run(ctx: &mut RunCtx) -> i32 {
     match ctx.property.as_str() {
         "C01" => c01::run(ctx),
+        "C02" => c02::run(ctx),
         other => {
             ctx.say(&format!("unknown property {}", other));
             2
@@ -19,6 +21,7 @@ pub fn run(ctx: &mut RunCtx) -> i32 {
 pub fn replay_fails(v: &Value) -> Option<(bool, String)> {
     match v.get("kind").and_then(|k| k.as_str()).unwrap_or("") {
         "sem-refc" => c01::replay_case(v),
+        "sem-opt" => c02::replay_case(v),
         _ => None,
     }
 }
